@@ -75,6 +75,8 @@ def recipes : List Recipe := [
   ⟨"v_irf / accept_SelfAccessNode / migrate_instance", "V_IRF", [(801, "V_VAL"), (808, "V_VAR")]⟩,
   ⟨"v_avl", "V_AVL", [(801, "V_VAL"), (807, "V_VAL"), (806, "O_ATTR")]⟩,
   ⟨"accept_VariableAccessNode", "V_TVL", [(801, "V_VAL"), (805, "V_VAR")]⟩,
+  ⟨"accept_FieldAccessNode (array length)", "V_ALV", [(801, "V_VAL"), (840, "V_VAL")]⟩,
+  ⟨"v_mvl", "V_MVL", [(801, "V_VAL"), (837, "V_VAL"), (836, "S_MBR")]⟩,
   ⟨"accept_SelectedAccessNode", "V_SLR", [(801, "V_VAL")]⟩,
   ⟨"accept_ParamAccessNode", "V_PVL", [(801, "V_VAL")]⟩,
   ⟨"accept_IndexAccessNode", "V_AER", [(801, "V_VAL"), (838, "V_VAL"), (839, "V_VAL")]⟩,
